@@ -1227,3 +1227,30 @@ def gen_hold_case(r, broadcast):
     for u in ids:
         add((tx(), u, rd))
     return ((link, units, None, tuple(frames)), tuple(script))
+
+
+def broadcast_rejected_cases(r, n=24):
+    """RTU: a broadcast write that the LOWEST-numbered unit rejects (per-address write failure), followed by unicast reads of
+    the written points on every unit: the higher-numbered units must have executed the write (a broadcast is never answered,
+    so only the later replies show whether it reached them)"""
+    out = []
+    for k in range(n):
+        ids = sorted(r.sample([1, 2, 3, 5, 17, 100, 247], r.choice([2, 3])))
+        addr = r.randrange(0, 50)
+        kind = k % 4
+        if kind == 0:
+            w, rd = bytes([5] + be(addr) + be(0xFF00)), bytes([1] + be(addr) + be(1))
+        elif kind == 1:
+            w, rd = bytes([6] + be(addr) + be(r.randrange(1, 65536))), bytes([3] + be(addr) + be(1))
+        elif kind == 2:
+            w, rd = bytes([15] + be(addr) + be(6) + [1, 0x2D]), bytes([1] + be(addr) + be(6))
+        else:
+            w, rd = bytes([16] + be(addr) + be(2) + [4] + rnd_bytes(r, 4)), bytes([3] + be(addr) + be(2))
+        rejecting = r.choice([0, 0, 1]) if len(ids) == 3 else 0
+        units = []
+        for j, u in enumerate(ids):
+            wex = ((kind, addr, r.choice([1, 2, 4, 6])),) if j == rejecting else ()
+            units.append((u, r.choice([1, 3, 7]), r.randrange(500), (), wex, (), (), (), ()))
+        frames = [(None, 0, w)] + [(None, u, rd) for u in ids]
+        out.append(('rtu', tuple(units), None, tuple(frames)))
+    return out
